@@ -6,6 +6,7 @@ struct PathParser {
     tokens: SvgPathSyntax,
     position: Option<(f32, f32)>,
     start_pos: Option<(f32, f32)>,
+    new_subpath: bool,
     command: Option<char>,
     min_x: f32,
     min_y: f32,
@@ -159,6 +160,7 @@ impl PathParser {
             tokens: SvgPathSyntax::new(data),
             position: None,
             start_pos: None,
+            new_subpath: false,
             command: None,
             min_x: 0.,
             min_y: 0.,
@@ -203,6 +205,9 @@ impl PathParser {
             // "L" in "M 100 200 L 200 100 L -100 -200" and use "M 100 200 L 200 100
             // -100 -200" instead)."
             self.command = Some(self.tokens.read_command()?);
+            // each moveto starts a new sub-path, which a later closepath returns to
+            // (further coordinate pairs after it are implicit linetos)
+            self.new_subpath = matches!(self.command, Some('M' | 'm'));
         }
 
         match self.command.expect("Command should be already set") {
@@ -210,11 +215,17 @@ impl PathParser {
                 // "(x y)+"
                 let xy = self.tokens.read_coord()?;
                 self.update_position(xy);
+                if std::mem::take(&mut self.new_subpath) {
+                    self.start_pos = self.position;
+                }
             }
             'm' | 'l' | 't' => {
                 let (dx, dy) = self.tokens.read_coord()?;
                 let (cpx, cpy) = self.position.unwrap_or((0., 0.));
                 self.update_position((cpx + dx, cpy + dy));
+                if std::mem::take(&mut self.new_subpath) {
+                    self.start_pos = self.position;
+                }
             }
             'H' => {
                 let new_x = self.tokens.read_number()?;
